@@ -49,20 +49,20 @@ type kinst struct {
 }
 
 type setWorld struct {
-	c        *core.Ctx
-	k        *keyed.Keyed[string, int]
-	rc       *keyed.KeyedRefCount[string, int]
-	delay    int64
-	retry    bool
-	failing  bool
-	settle   bool
-	model    map[string]*mEntry
-	nextTok  int
-	byTok    map[int]*mEntry
-	insts    []*kinst
-	instOf   map[int]*kinst // token -> most recent instance
-	refs     []*refRec
-	ctxOn    bool
+	c       *core.Ctx
+	k       *keyed.Keyed[string, int]
+	rc      *keyed.KeyedRefCount[string, int]
+	delay   int64
+	retry   bool
+	failing bool
+	settle  bool
+	model   map[string]*mEntry
+	nextTok int
+	byTok   map[int]*mEntry
+	insts   []*kinst
+	instOf  map[int]*kinst // token -> most recent instance
+	refs    []*refRec
+	ctxOn   bool
 	// retry obligations (C07.K3): key -> failed instance whose retry must still happen
 	due    map[string]*kinst
 	voided map[*kinst]bool
